@@ -119,6 +119,10 @@ class Tr:
                 return f"({f} {args})"
             if d in ("np.array", "numpy.array", "np.asarray"):
                 return self.expr(e.args[0])
+            if d in ("np.isclose", "numpy.isclose") and len(e.args) == 2 and not e.keywords:
+                # numpy default tolerances: |a - b| <= atol + rtol * |b|, atol = 1e-8, rtol = 1e-5
+                a, b = self.expr(e.args[0]), self.expr(e.args[1])
+                return f"(absR ({a} - {b}) ≤ (1.0e-8 : R) + (1.0e-5 : R) * absR {b})"
             raise Untranslatable(f"call {d}")
         if isinstance(e, (ast.List, ast.Tuple)):
             return "[" + ", ".join(self.expr(x) for x in e.elts) + "]"
@@ -129,6 +133,16 @@ class Tr:
             if op is None:
                 raise Untranslatable("comparison")
             return f"({self.expr(e.left)} {op} {self.expr(e.comparators[0])})"
+        if isinstance(e, ast.Compare) and len(e.ops) > 1:
+            # chained comparison  a < b <= c  ==  a < b and b <= c  (operands here are side-effect free)
+            terms = [e.left] + list(e.comparators)
+            parts = []
+            for l, o, r in zip(terms[:-1], e.ops, terms[1:]):
+                op = {ast.Lt: "<", ast.LtE: "≤", ast.Gt: ">", ast.GtE: "≥", ast.Eq: "=", ast.NotEq: "≠"}.get(type(o))
+                if op is None:
+                    raise Untranslatable("comparison")
+                parts.append(f"({self.expr(l)} {op} {self.expr(r)})")
+            return "(" + " ∧ ".join(parts) + ")"
         if isinstance(e, ast.BoolOp):
             op = " ∧ " if isinstance(e.op, ast.And) else " ∨ "
             return "(" + op.join(self.expr(v) for v in e.values) + ")"
@@ -268,6 +282,114 @@ def translate_slice(path, qualname, inputs, outputs, lean_name, result_expr=None
     return f"def {lean_name} ({args} : R) :=\n{indent(body)}\n"
 
 
+class VecTr:
+    """Straight-line numpy 3-vector code (beyond/frames/local.py style) -> Lean over the `V3` structure of
+    lean/templates/Vec3.tpl.  Supported statements: `a, b = _split(x)` (skipped: `a`, `b` become the inputs),
+    `name = expr`, `name /= expr`, `name *= expr`, `return np.array([u, v, w])` (rows of a matrix -> `M3.mk u v w`).
+    Expressions are typed 'v' (3-vector) or 's' (scalar): names, `norm(v)`, `np.cross(u, v)`, `np.dot(u, v)`, v / s, s * v,
+    v * s, v + v, v - v, -v and scalar arithmetic through `Tr`."""
+
+    def __init__(self, vec_names):
+        self.vecs = set(vec_names)
+        self.tr = Tr()
+
+    def typ(self, e):
+        if isinstance(e, ast.Name):
+            return "v" if e.id in self.vecs else "s"
+        if isinstance(e, ast.Call):
+            d = self.tr.dotted(e.func) or ""
+            if d.split(".")[-1] == "cross":
+                return "v"
+            return "s"
+        if isinstance(e, ast.BinOp):
+            return "v" if "v" in (self.typ(e.left), self.typ(e.right)) else "s"
+        if isinstance(e, ast.UnaryOp):
+            return self.typ(e.operand)
+        return "s"
+
+    def expr(self, e):
+        if self.typ(e) == "s":
+            if isinstance(e, ast.Call):
+                d = self.tr.dotted(e.func) or ""
+                short = d.split(".")[-1]
+                if short == "norm" and len(e.args) == 1 and self.typ(e.args[0]) == "v":
+                    return f"(V3.norm {self.expr(e.args[0])})"
+                if short == "dot" and len(e.args) == 2:
+                    return f"(V3.dot {self.expr(e.args[0])} {self.expr(e.args[1])})"
+            if isinstance(e, ast.BinOp) and not isinstance(e.op, ast.Pow):
+                op = {ast.Add: "+", ast.Sub: "-", ast.Mult: "*", ast.Div: "/"}.get(type(e.op))
+                if op is None:
+                    raise Untranslatable("vector code: scalar operator")
+                return f"({self.expr(e.left)} {op} {self.expr(e.right)})"
+            return self.tr.expr(e)
+        if isinstance(e, ast.Name):
+            return lname(e.id)
+        if isinstance(e, ast.Call):
+            d = self.tr.dotted(e.func) or ""
+            if d.split(".")[-1] == "cross" and len(e.args) == 2:
+                return f"(V3.cross {self.expr(e.args[0])} {self.expr(e.args[1])})"
+        if isinstance(e, ast.UnaryOp) and isinstance(e.op, ast.USub):
+            return f"(V3.neg {self.expr(e.operand)})"
+        if isinstance(e, ast.BinOp):
+            tl, tr_ = self.typ(e.left), self.typ(e.right)
+            a, b = self.expr(e.left), self.expr(e.right)
+            if isinstance(e.op, ast.Div) and tl == "v" and tr_ == "s":
+                return f"(V3.divS {a} {b})"
+            if isinstance(e.op, ast.Mult) and tl == "v" and tr_ == "s":
+                return f"(V3.smul {b} {a})"
+            if isinstance(e.op, ast.Mult) and tl == "s" and tr_ == "v":
+                return f"(V3.smul {a} {b})"
+            if isinstance(e.op, ast.Add) and tl == tr_ == "v":
+                return f"(V3.add {a} {b})"
+            if isinstance(e.op, ast.Sub) and tl == tr_ == "v":
+                return f"(V3.sub {a} {b})"
+        raise Untranslatable(f"vector expression {ast.dump(e)[:80]}")
+
+
+def translate_vec_function(path, qualname, lean_name, split_call="_split"):
+    """def <lean_name> (<a> <b> : V3) : M3 — for a function whose body starts with `a, b = _split(arg)`"""
+    tree = ast.parse(open(path).read())
+    fn = find_function(tree, qualname)
+    stmts = [s for s in fn.body if not (isinstance(s, ast.Expr) and isinstance(s.value, ast.Constant))]
+    first = stmts[0]
+    if not (isinstance(first, ast.Assign) and isinstance(first.targets[0], ast.Tuple) and isinstance(first.value, ast.Call)
+            and Tr().dotted(first.value.func) == split_call and len(first.targets[0].elts) == 2):
+        raise Untranslatable(f"{qualname}: body does not start with `a, b = {split_call}(x)`")
+    ins = [t.id for t in first.targets[0].elts]
+    vt = VecTr(ins)
+    lines = []
+    result = None
+    for s in stmts[1:]:
+        if isinstance(s, ast.Assign) and len(s.targets) == 1 and isinstance(s.targets[0], ast.Name):
+            n = s.targets[0].id
+            ty = vt.typ(s.value)
+            txt = vt.expr(s.value)
+            if ty == "v":
+                vt.vecs.add(n)
+            else:
+                vt.vecs.discard(n)
+            lines.append(f"let {lname(n)} : {'V3' if ty == 'v' else 'R'} := {txt}")
+        elif isinstance(s, ast.AugAssign) and isinstance(s.target, ast.Name):
+            n = s.target.id
+            fake = ast.BinOp(left=ast.Name(id=n, ctx=ast.Load()), op=s.op, right=s.value)
+            ty = vt.typ(fake)
+            lines.append(f"let {lname(n)} : {'V3' if ty == 'v' else 'R'} := {vt.expr(fake)}")
+        elif isinstance(s, ast.Return):
+            v = s.value
+            if isinstance(v, ast.Call) and Tr().dotted(v.func) in ("np.array", "numpy.array"):
+                v = v.args[0]
+            if not (isinstance(v, (ast.List, ast.Tuple)) and len(v.elts) == 3 and all(vt.typ(x) == "v" for x in v.elts)):
+                raise Untranslatable(f"{qualname}: return value is not a stack of three vectors")
+            result = "M3.mk " + " ".join(vt.expr(x) for x in v.elts)
+            break
+        else:
+            raise Untranslatable(f"{qualname}: statement {type(s).__name__}")
+    if result is None:
+        raise Untranslatable(f"{qualname}: no return")
+    args = " ".join(lname(i) for i in ins)
+    return f"def {lean_name} ({args} : V3) : M3 :=\n{indent(chr(10).join(lines + [result]))}\n"
+
+
 HEADER_F = """/- GENERATED by harness/py2lean.py from {src} — do not edit. Float instantiation (driver). -/
 import BeyondVerif.NumFloat
 namespace BeyondVerif.F
@@ -290,8 +412,10 @@ def instantiate(lean_root, name, body, src, subdir="Generated", extra_imports=()
     """write <subdir>/<name>F.lean and <subdir>/<name>R.lean; returns list of changed files"""
     from harness.core import write_if_changed
     changed = []
-    impF = "".join(f"import BeyondVerif.{subdir}.{m}F\n" for m in extra_imports)
-    impR = "".join(f"import BeyondVerif.{subdir}.{m}R\n" for m in extra_imports)
+    # an import name containing a dot (e.g. "Model.Vec3") is taken relative to BeyondVerif, otherwise to <subdir>
+    full = [m if "." in m else f"{subdir}.{m}" for m in extra_imports]
+    impF = "".join(f"import BeyondVerif.{m}F\n" for m in full)
+    impR = "".join(f"import BeyondVerif.{m}R\n" for m in full)
     f = HEADER_F.format(src=src).replace("import BeyondVerif.NumFloat\n", "import BeyondVerif.NumFloat\n" + impF) + body + "\nend BeyondVerif.F\n"
     r = HEADER_R.format(src=src).replace("import BeyondVerif.NumReal\n", "import BeyondVerif.NumReal\n" + impR) + body + "\nend BeyondVerif.R\n"
     if write_if_changed(os.path.join(lean_root, "BeyondVerif", subdir, name + "F.lean"), f):
